@@ -60,6 +60,7 @@ class Ctx:
         os.makedirs(self.tmpdir)
         self._n = 0
         self.violations = []      # (key, description, replay_path)
+        self._violation_keys = set()
         self.known_hits = {}      # key -> description of the witness
         self.cov = {"states": 0, "transitions": 0, "traces_validated_against_impl": 0,
                     "evaluations": 0, "distinct_nontrivial": 0, "samples": [],
@@ -336,7 +337,10 @@ class Ctx:
         os.makedirs(rdir, exist_ok=True)
         h = hashlib.sha1(json.dumps(case, sort_keys=True, default=str).encode()).hexdigest()[:12]
         path = os.path.join(rdir, "%s-%s.json" % (re.sub(r"[^A-Za-z0-9_.-]+", "_", key)[:60], h))
-        if len(self.violations) < 25:
+        # a replay file for the first case of every distinct key (those are the VIOLATION lines printed), and for the first 25 cases
+        first = key not in self._violation_keys
+        self._violation_keys.add(key)
+        if len(self.violations) < 25 or (first and len(self._violation_keys) <= 400):
             with open(path, "w") as f:
                 json.dump({"property": self.prop, "key": key, "description": desc, "seed": self.seed, "tier": self.tier, "case": case}, f, indent=1, default=str)
         self.violations.append((key, desc, path))
